@@ -9,7 +9,7 @@ from vlib import (Inconclusive, NCPU, log, run, run_tlc, stage_spec, validate_tr
 
 H_INV = ["H_WellFormed"]
 M_INV = ["M_Values", "M_Heads", "M_Nidx", "M_ClockId", "M_Iterator"]
-M_PROP = ["M_Append", "M_AppendWriteFault", "M_Join", "M_SetIdentity", "M_Tamper"]
+M_PROP = ["M_Append", "M_AppendWriteFault", "M_Join", "M_SetIdentity", "M_Tamper", "M_Fork"]
 
 # Layer-P operators of each property: (model invariants, model action properties,
 #                                      trace invariants, trace action properties)
@@ -22,7 +22,7 @@ OPS = {
             ["C03_Permutation", "C03_Causal", "C03_Sorted"], []),
     "C04": (["ClockDominates"], ["C04_Append"], [], ["C04_Append"]),
     "C05": ([], ["C05_EntriesMonotone", "C05_ValuesSubsequence", "C05_OthersUntouched"],
-            ["C05_OneContentPerHash"],
+            ["C05_OneContentPerHash", "C05_IndexIntact"],
             ["C05_EntriesMonotone", "C05_ValuesSubsequence", "C05_DigestsStable", "C05_OthersUntouched"]),
     "C06": (["C06_HeadsStayInLog"], ["C06_OnlyValidAdded"],
             ["C06_HonestHoldGenuine"],
@@ -39,7 +39,7 @@ OPS = {
 
 def base_consts(**kw):
     c = dict(NR=3, Writer0=[1, 2, 1], Lid=["X", "X", "X"], Fn="LWW", MaxE=4, MaxOps=6, PCs={1},
-             Sizes=set(), Writers=set(), Denied=[set(), set(), set()], HashPerm="id", IterOn=set(), Evil=set(), Kinds=set(), MaxBad=0, PubOn=set(), WriteFaults=False)
+             Sizes=set(), Writers=set(), Denied=[set(), set(), set()], HashPerm="id", IterOn=set(), Evil=set(), Kinds=set(), MaxBad=0, PubOn=set(), WriteFaults=False, ForkOn=set())
     c.update(kw)
     return c
 
